@@ -3,6 +3,7 @@ package main
 import (
 	"fmt"
 	"strings"
+	"time"
 
 	"verif/kit"
 	"verif/ref"
@@ -237,15 +238,20 @@ func init() {
 
 	// S-election-vs-votes: member 1 leads view 1. Its own election timeout races with the peers' VIEW_CHANGE
 	// votes for view 1 and a stale-view PREPARE.
-	registerBoth("S-election-vs-votes", []string{"C13", "C19"}, 2, 3, 4, func(x *X, cancel bool) {
+	registerBoth("S-election-vs-votes", []string{"C13", "C19", "C15"}, 2, 3, 4, func(x *X, cancel bool) {
 		n := newNode(x, 1)
 		n.Boot()
 		s := x.S
+		votesIn := false
+		v0 := n.fac(0, nil).CreateViewChangeMessage(1, 1, nil).ToConsensusRawMessage()
 		v2 := n.fac(2, nil).CreateViewChangeMessage(1, 1, nil).ToConsensusRawMessage()
 		v3 := n.fac(3, nil).CreateViewChangeMessage(1, 1, nil).ToConsensusRawMessage()
 		s.Thread("voters", func() {
+			// three votes: a quorum without the node's own vote, so it can be elected BEFORE its own timeout (view jump)
 			n.M.HandleConsensusMessage(n.Ctx, v2)
 			n.M.HandleConsensusMessage(n.Ctx, v3)
+			n.M.HandleConsensusMessage(n.Ctx, v0)
+			votesIn = true
 		})
 		var ss []sample
 		observer(n, &ss, 2)
@@ -262,8 +268,27 @@ func init() {
 		if nv > 1 {
 			x.Bad("C10", "two-newviews", "%d NEW_VIEW messages for view 1", nv)
 		}
-		if v := uint64(n.M.State().View()); int(v) > s.Fires {
-			x.Bad("C19", "view-advanced-without-expiry", "view is %d after %d timer expiries", v, s.Fires)
+		// the view can only advance from k to k+1 by an expiry of a timer armed for view k (duration base*2^k),
+		// or from 0 to 1 by the quorum of votes (election before the own timeout)
+		firedFor := map[uint64]int{}
+		for _, t := range s.Timers {
+			if t.Fired {
+				for k := uint64(0); k < 8; k++ {
+					if t.D == time.Second<<k {
+						firedFor[k]++
+					}
+				}
+			}
+		}
+		reach := uint64(0)
+		if firedFor[0] > 0 || nv > 0 || votesIn {
+			reach = 1
+		}
+		for firedFor[reach] > 0 && reach >= 1 {
+			reach++
+		}
+		if v := uint64(n.M.State().View()); v > reach {
+			x.Bad("C19", "view-advanced-without-expiry", "view is %d, but the expired timers (by view: %v) and the election by votes (%d NEW_VIEW) only justify view %d", v, firedFor, nv, reach)
 		}
 		if !cancel && s.Fires >= 1 && nv == 0 && uint64(n.M.State().View()) == 1 {
 			x.Bad("C05", "elected-leader-silent", "member 1 timed out into view 1, received both votes, but sent no NEW_VIEW (events %v)", n.Events)
@@ -356,7 +381,7 @@ func init() {
 					x.Bad("C15", "current-context-cancelled-by-stale-event", "the context of RequestNewBlockProposal(h1,v0) was cancelled although only stale syncs and past-height messages arrived (events %v)", tail(n.Events, 6))
 				}
 			}
-			if len(n.Rounds) != 1 {
+			if len(n.Rounds) > 1 { // (the round-1 callback itself only fires once the blocked term constructor returns)
 				x.Bad("C14", "stale-sync-changed-state", "stale syncs restarted the round: new-round callbacks %v", n.Rounds)
 			}
 		}
